@@ -176,7 +176,10 @@ def classify(hres, unit):
     tool_limit = [c for c in failed if c.get("category") in ("unwinding", "unsupported_construct")
                   or "unwinding assertion" in (c.get("description") or "")]
     real = [c for c in failed if c not in tool_limit]
-    if real:
+    # A reachable unsupported construct (foreign function, inline asm, ...) makes every other
+    # verdict of the harness unreliable: Kani itself reports such a run as undetermined.
+    unsupported = [c for c in tool_limit if c.get("category") == "unsupported_construct"]
+    if real and not unsupported:
         out["kind"] = "violated"
         out["failed"] = real
         return out
